@@ -414,13 +414,16 @@ Fixpoint push_front_more (fuel : nat) (chunk : Z) (st : store) (iv : iovector) (
   | O => None
   | S f =>
       if bytes =? 0 then Some (st, iv, bytes0 - bytes) else
-      if ibeg iv =? 0 then Some (st, iv, bytes0 - bytes) else
+      if ibeg iv <=? 0 then Some (st, iv, bytes0 - bytes) else          (* iov_begin == 0 (uint16_t) *)
       let '(st1, iv1, v) := new_iovec chunk st iv bytes in
       if iv_len v =? 0 then Some (st1, iv1, bytes0 - bytes) else
       let '(iv2, _) := o_push_front iv1 v in
       push_front_more f chunk st1 iv2 bytes0 (bytes - iv_len v)
   end.
-Definition more_fuel (iv : iovector) : nat := S (S (Z.to_nat (cap iv))).
+(* fuel: every iteration of push_back_more fills a slot (iov_end grows towards capacity), every
+   iteration of push_front_more uses a reserved front slot (iov_begin shrinks towards 0) *)
+Definition back_fuel (iv : iovector) : nat := S (Z.to_nat (cap iv - iend iv)).
+Definition front_fuel (iv : iovector) : nat := S (Z.to_nat (ibeg iv)).
 (* iovector.h:389-397 push_back(size_t bytes) *)
 Definition o_push_back_alloc (chunk : Z) (st : store) (iv : iovector) (bytes : Z)
   : option (store * iovector * Z) :=
@@ -429,19 +432,19 @@ Definition o_push_back_alloc (chunk : Z) (st : store) (iv : iovector) (bytes : Z
   if iv_len v =? 0 then Some (st1, iv1, 0) else
   let '(iv2, r) := o_push_back iv1 v in
   if r =? bytes then Some (st1, iv2, bytes) else
-  match push_back_more (more_fuel iv2) chunk st1 iv2 (bytes - iv_len v) (bytes - iv_len v) with
+  match push_back_more (back_fuel iv2) chunk st1 iv2 (bytes - iv_len v) (bytes - iv_len v) with
   | None => None
   | Some (st3, iv3, r3) => Some (st3, iv3, iv_len v + r3)
   end.
 (* iovector.h:363-371 push_front(size_t bytes) *)
 Definition o_push_front_alloc (chunk : Z) (st : store) (iv : iovector) (bytes : Z)
   : option (store * iovector * Z) :=
-  if ibeg iv =? 0 then Some (st, iv, 0) else
+  if ibeg iv <=? 0 then Some (st, iv, 0) else                         (* iov_begin == 0 (uint16_t) *)
   let '(st1, iv1, v) := new_iovec chunk st iv bytes in
   if iv_len v =? 0 then Some (st1, iv1, 0) else
   let '(iv2, r) := o_push_front iv1 v in
   if r =? bytes then Some (st1, iv2, bytes) else
-  match push_front_more (more_fuel iv2) chunk st1 iv2 (bytes - iv_len v) (bytes - iv_len v) with
+  match push_front_more (front_fuel iv2) chunk st1 iv2 (bytes - iv_len v) (bytes - iv_len v) with
   | None => None
   | Some (st3, iv3, r3) => Some (st3, iv3, iv_len v + r3)
   end.
